@@ -133,6 +133,8 @@ def generate(seed, tier):
                 op["t"] = [list(x) for x in q[0]]
                 op["g"] = g.choice([None, q[1], q[1]])
             op["via"] = g.choice(["graph", "cg", "store", "handed-out"])
+            if veto_mode and g.chance(0.2):
+                op["veto"] = True  # fault: a TripleRemovedEvent subscriber of the wrapped store raises during this removal (if the store announces removals)
             for q in [q for q in content if q[0] == tuple(map(_tt, op["t"])) and (op["g"] is None or q[1] == op["g"])]:
                 content.discard(q)
                 gone[part].append(q)
@@ -216,6 +218,7 @@ def execute(trace, ctx):
         pass
 
     armed = [False]
+    armed_rm = [False]
     if cfg.get("veto_mode") and not simple:
         from rdflib.store import TripleAddedEvent
 
@@ -226,6 +229,16 @@ def execute(trace, ctx):
                 raise SubscriberVeto()
 
         base.dispatcher.subscribe(TripleAddedEvent, on_add)
+        # the same for removals (the default store announces none today: the handler is there in case it does)
+        from rdflib.store import TripleRemovedEvent
+
+        def on_remove(event):
+            if armed_rm[0]:
+                armed_rm[0] = False
+                ctx.fault("subscriber-raised-on-remove")
+                raise SubscriberVeto()
+
+        base.dispatcher.subscribe(TripleRemovedEvent, on_remove)
     wrappers = {}
     snap = {}
     for part in ("A", "B"):
@@ -336,30 +349,38 @@ def execute(trace, ctx):
             if any(q not in snap[part] for q in hit):
                 ctx.probe("remove-of-added")
             pat = (T(t[0]), T(t[1]), T(t[2]))
-            if gname is not None:
-                if via == "graph":
-                    Graph(st, T(gname)).remove(pat)
-                elif via == "cg":
-                    ConjunctiveGraph(st, identifier=T(graphs[0])).remove(pat + (Graph(st, T(gname)),))
-                elif via == "handed-out":
-                    # through the Graph objects that quads() / contexts() of a ConjunctiveGraph on the wrapper hand out
-                    ctx.probe("write-through-handed-out-graph")
-                    cgx = ConjunctiveGraph(st, identifier=T(graphs[0]))
-                    if op["uid"] % 2:
-                        for s_, p_, o_, c_ in list(cgx.quads(pat)):
-                            if c_ is not None and c_.identifier == T(gname):
-                                c_.remove((s_, p_, o_))
+            armed_rm[0] = bool(op.get("veto") and cfg.get("veto_mode") and not simple)
+            try:
+                if gname is not None:
+                    if via == "graph":
+                        Graph(st, T(gname)).remove(pat)
+                    elif via == "cg":
+                        ConjunctiveGraph(st, identifier=T(graphs[0])).remove(pat + (Graph(st, T(gname)),))
+                    elif via == "handed-out":
+                        # through the Graph objects that quads() / contexts() of a ConjunctiveGraph on the wrapper hand out
+                        ctx.probe("write-through-handed-out-graph")
+                        cgx = ConjunctiveGraph(st, identifier=T(graphs[0]))
+                        if op["uid"] % 2:
+                            for s_, p_, o_, c_ in list(cgx.quads(pat)):
+                                if c_ is not None and c_.identifier == T(gname):
+                                    c_.remove((s_, p_, o_))
+                        else:
+                            for c_ in list(cgx.contexts()):
+                                if c_.identifier == T(gname):
+                                    c_.remove(pat)
                     else:
-                        for c_ in list(cgx.contexts()):
-                            if c_.identifier == T(gname):
-                                c_.remove(pat)
+                        st.remove(pat, Graph(st, T(gname)))
                 else:
-                    st.remove(pat, Graph(st, T(gname)))
-            else:
-                if via == "store":
-                    st.remove(pat, None)
-                else:
-                    ConjunctiveGraph(st, identifier=T(graphs[0])).remove(pat)
+                    if via == "store":
+                        st.remove(pat, None)
+                    else:
+                        ConjunctiveGraph(st, identifier=T(graphs[0])).remove(pat)
+            except SubscriberVeto:
+                ctx.probe("remove-interrupted-by-subscriber")
+                # the store says what the refused removal did; rollback must restore the snapshot either way
+                got_now, _ = observe()
+                hit = {q for q in hit if q not in got_now}
+            armed_rm[0] = False
             model -= hit
         elif k == "sparql":
             import rdflib.plugins.sparql as sp
